@@ -250,8 +250,9 @@ def model(run, thorough=False, dump=True):
     return res, consts
 
 
-def run_leg(run, prop):
-    """prop: 'C12' or 'C13' - which clauses of the leg are this check's verdicts."""
+def run_leg(run, prop, clauses=None):
+    """prop: 'C12' or 'C13' - which clauses of the leg are this check's verdicts (or an explicit set of clauses:
+    C07 takes 'rows_coupled_in_eval' - a conditioner that mixes rows conditions on other rows' features)."""
     thorough = run.tier == "thorough"
     res, consts = model(run, thorough)
     run.model_must_hold(res, "Nets")
@@ -266,7 +267,7 @@ def run_leg(run, prop):
     ndrift = 0
     for out in pmap(task, [work[i::nproc] for i in range(nproc) if work[i::nproc]], nproc):
         run.evaluations += out["n"]
-        fails += [f for f in out["fails"] if f["prop"] == prop]
+        fails += [f for f in out["fails"] if (f["clause"] in clauses if clauses else f["prop"] == prop)]
         for d in out["drift"]:
             ndrift += 1
             if ndrift <= 3:
@@ -289,9 +290,9 @@ def run_leg(run, prop):
     return fails
 
 
-def replay(run, c, prop):
+def replay(run, c, prop, clauses=None):
     res, _ = model(run, thorough=(c["cfg"]["blocks"] > CONSTS["MaxBlocks"] or len(c["modes"]) > CONSTS["MaxCalls"]))
     cases = [dict(k, seed=c["seed"], act=c["act"]) for k in cases_of(parse_dump(res.dump)) if k["cfg"] == c["cfg"] and k["modes"] == c["modes"]]
     for f in task(cases)["fails"]:
-        if f["prop"] == prop and f["clause"] == c["clause"]:
+        if (f["clause"] in clauses if clauses else f["prop"] == prop) and f["clause"] == c["clause"]:
             run.violation({"model": "nets:" + f["cfg"]["kind"], "verdict": f["clause"]}, "replayed: " + f["detail"], c)
